@@ -20,7 +20,7 @@ import klongpy.db.file_cache as fc
 from klongpy.db.sys_fn_kvs import KeyValueStorage, TableStorage
 
 ROOT = '/store'
-KEYS = ['a', 'b', 'd/x', 'd/y', 'd//x']     # 'd//x' is another spelling of the path of 'd/x': the same key
+KEYS = ['a', 'b', 'd/x', 'd/y', 'd//x', 'd/./x']     # 'd//x' and 'd/./x' are other spellings of the path of 'd/x': the same key
 MISSING = ['zz', 'd/zz', 'q/r', 'd']        # 'd' names the directory of the nested keys once one of them is set
 CONFLICT = ['d', 'a/q']                    # keys the one-file-per-key layout cannot hold next to 'd/x' / 'a': a set of
                                            # one of them (or of 'd/x' / 'a' after it) must fail and change nothing
